@@ -66,7 +66,7 @@ def install_choice(env, idx):
         env._set(numpy.random, "choice", choice)
 
 
-def body_runs(E, eng, n1, n2, over2, kind2, bs, fresh, shuf, base, i0, i1, i2, i3, i4, i5, j1, nw=False):
+def body_runs(E, eng, n1, n2, over2, kind2, bs, fresh, shuf, base, i0, i1, i2, i3, i4, i5, j1, nw=False, gz=False):
     engine = ["pickle", "csv"][concretize(eng, 0, 1)]
     n1 = concretize(n1, 1, 2)
     n2 = concretize(n2, 1, 2)
@@ -81,7 +81,8 @@ def body_runs(E, eng, n1, n2, over2, kind2, bs, fresh, shuf, base, i0, i1, i2, i
 
     with E(pools=[[0, j1]]) as env:
         install_choice(env, idx)
-        name = env.parent + "/samples." + {"pickle": "pkl", "csv": "csv"}[engine]
+        # gz: a table name with a compression suffix (pandas infers the compression from the end of the name)
+        name = env.parent + "/samples." + {"pickle": "pkl", "csv": "csv"}[engine] + (".gz" if cbool(gz) else "")
 
         def new_sampler():
             r = Runner(fn, var_names="out", constants={"c": 7})
@@ -267,6 +268,13 @@ CONDS = (
                 bounds="two runs (n=1..2 then n=1): first sample_combos (optionally shuffled), second sample_combos "
                        "or sow_samples/grow/reap; combos override on/off; fresh Sampler on the same file or not; "
                        "engine %s; every drawn index; kind2 0 direct 1 crop" % ["pickle", "csv"][eng])]
+    + [make_cond(_G, "runs_gz", body_runs, _SIG,
+                 ["0 <= eng <= 1 and n1 == 1 and n2 == 1 and bs == 1 and 0 <= kind2 <= 1 and not shuf and not over2", _I,
+                  "i1 == 0 and i2 == 0 and i3 == 0 and i4 == 0 and i5 == 0 and j1 == 0"],
+                 fixed=dict(gz=True), timeout=300,
+                 bounds="table named samples.pkl.gz / samples.csv.gz (compression inferred from the name by pandas): "
+                        "two runs, fresh Sampler or not, direct or through a crop: disk = memory and a new sampler "
+                        "continues")]
     + [make_cond(_G, "runs_n2", body_runs, _SIG + " nw:bool",
                  ["eng == 0 and n1 == 1 and n2 == 2 and 1 <= bs <= 2 and 0 <= kind2 <= 1 and not shuf", _I,
                   "i1 == 0 and i5 == 0 and j1 == 0", "not nw or (kind2 == 1 and bs == 2)"], timeout=600,
